@@ -97,6 +97,15 @@ func c14Configs() []*hConfig {
 			}
 		}
 	}
+	// objects nested in one another: a wide object containing two disjoint narrower ones
+	// (configs 12 and 13); the search starts after the three loads
+	nested := []string{`{k:1,v:"a"} {k:10,v:"b"}`, `{k:5,v:"c"} {k:6,v:"d"}`, `{k:2,v:"e"} {k:3,v:"f"}`}
+	for _, ord := range []string{"asc", "desc"} {
+		cfg := &hConfig{Key: "k:" + ord, Batches: nested, Preds: []string{"k>=5", `v=="a"`, "k==100"}, Ops: c14DataOps(mainOnly),
+			Prefix: []hOp{{Kind: "load", Branch: "main", Batch: 0}, {Kind: "load", Branch: "main", Batch: 1}, {Kind: "load", Branch: "main", Batch: 2}}, DepthAdj: [2]int{-1, -1}}
+		cfg.Name = fmt.Sprintf("key=%s nested-objects", cfg.Key)
+		out = append(out, cfg)
+	}
 	return out
 }
 
@@ -114,12 +123,12 @@ func TestC14(t *testing.T) {
 	var sel []int
 	for i := range cfgs {
 		// quick: key k and this with small objects, a.b with default
-		if rep.Thorough() || i == 0 || i == 3 || i == 5 || i == 8 || i == 10 {
+		if rep.Thorough() || i == 0 || i == 3 || i == 5 || i == 8 || i == 10 || i == 12 || i == 13 {
 			sel = append(sel, i)
 		}
 	}
 	runHistoryShards(t, run, "c14", len(cfgs), sel, depth, rep.Deadline(4*time.Minute, 60*time.Minute))
-	run.Assume("values come from three fixed batches per pool key (duplicate keys, mixed key types, null and missing keys, non-record values for key this); long random histories are outside this technique")
+	run.Assume("values come from three fixed batches per pool key (duplicate keys, mixed key types, null and missing keys, non-record values for key this; and a wide object containing two disjoint narrower ones); long random histories are outside this technique")
 	run.Assume("the model adopts the implementation's partition of new values into objects after checking their union; it predicts sets of objects per commit and values per object set")
 	run.Assume("expected delete-where matches are computed by evaluating the predicate on each value in memory with the sequential runtime (no lake, no pruning)")
 	run.Assume("tie order determinism is checked by repeating each tip scan 3 times from cold handles (Go map iteration order cannot be enumerated)")
